@@ -45,7 +45,13 @@ fn main() {
         }
         "C11" => push(&mut rep, mcx::e4::c11(progs::PROGS, &decls, if quick { 3 } else { 4 }, 6)),
         "C12" => push(&mut rep, mcx::e4::c12(progs::PROGS, &decls, if quick { 2 } else { 3 })),
-        "C16" => push(&mut rep, mcx::e4::c09(progs::PROGS, &decls, 3)),
+        "C16" => {
+            push(&mut rep, mcx::e4::c09(progs::PROGS, &decls, 3));
+            // completion of derived names and groups under every build that has the facility (help on and off)
+            if cfg!(feature = "autocomplete") {
+                push(&mut rep, mcx::e4::c11(progs::PROGS, &decls, if quick { 3 } else { 4 }, 6));
+            }
+        }
         "C15" => push(&mut rep, mcx::e4::c15(progs::PROGS, &decls, if quick { 3 } else { 4 })),
         _ => {
             eprintln!("unknown property {}", prop);
